@@ -355,7 +355,12 @@ def _loop(rep, ex: Explorer):
             rep.check(ok2, "MCS.block", site, "blocked set", "the blocking constraint is built from the set just found", extracted=repr(ex_ev[0].args[1:]) if ex_ev else "none", required="exclude_violated(found set)", function=site)
             if vi_ev:
                 a = vi_ev[0].args
-                ok3 = len(a) >= 4 and isinstance(a[1], ElemV) and a[1].var[:1] == ("rc2model",) and isinstance(a[3], ElemV) and a[3].var == ("ignore",)
+                ign_ok = len(a) >= 4 and isinstance(a[3], ElemV) and a[3].var == ("ignore",)
+                if len(a) >= 4 and isinstance(a[3], Ref) and isinstance(p.state.heap.get(a[3].oid), HList):
+                    # a collection made of the ignore list (a copy, a set of it): the same members
+                    sg_ = p.state.heap[a[3].oid].segs
+                    ign_ok = len(sg_) == 1 and ((sg_[0][0] == "sym" and sg_[0][1] == ("ignore",)) or (sg_[0][0] == "each" and sg_[0][2] == ("members", ("ignore",)) and sg_[0][3] == PTRUE and isinstance(sg_[0][4], ElemV) and sg_[0][4].var == sg_[0][1]))
+                ok3 = len(a) >= 4 and isinstance(a[1], ElemV) and a[1].var[:1] == ("rc2model",) and ign_ok
                 rep.check(ok3, "MCS.violated", site, "arguments", "the violated owners are read off the model just computed, skipping the ignore list", extracted=repr(a[1:]), required="(model, cost, ignore)", function=site)
         if not back and p.outcome[0] == "return":
             rs = [e for e in evs if e.kind == "remove_supersets"]
@@ -517,7 +522,8 @@ def shared_defaults(rep, ex: Explorer, modules=("inference.optimizer", "inferenc
                 continue
             n += 1
             site = fn_label(ex.prog, q)
-            rebound = any(isinstance(x, _ast.Assign) and any(isinstance(t, _ast.Name) and t.id == name for t in x.targets) for x in _ast.walk(fi.node))
+            rebinds = [x for x in _ast.walk(fi.node) if isinstance(x, _ast.Assign) and any(isinstance(t, _ast.Name) and t.id == name for t in x.targets)]
+            rebound = bool(rebinds)
             hit = None
             for x in _ast.walk(fi.node):
                 if isinstance(x, _ast.AugAssign) and isinstance(x.target, _ast.Name) and x.target.id == name:
@@ -528,6 +534,9 @@ def shared_defaults(rep, ex: Explorer, modules=("inference.optimizer", "inferenc
                     hit = (x.lineno, f"{name}[...] = ...")
                 if hit:
                     break
+            if hit and rebound and all(not (isinstance(x.value, _ast.Name) and x.value.id == name) for x in rebinds) and min(x.lineno for x in rebinds) < hit[0] \
+                    and not any(isinstance(a_, (_ast.If, _ast.For, _ast.While, _ast.Try)) and any(x in _ast.walk(a_) for x in rebinds) for a_ in fi.node.body):
+                hit = None  # the name is bound to a new object (a copy) at the top level of the function before it is changed
             if hit and rebound:
                 raise AnalysisError(f"{site}: the parameter {name} (mutable default) is both rebound and changed in place")
             rep.check(hit is None, "MCS.loop", f"{site}:{hit[0]}" if hit else site, f"default of {name}", "the shared default object of a parameter is never changed in place (what one call adds is there for every later call that omits the argument)",
